@@ -360,8 +360,17 @@ class Samples(object):
         """Compute pointwise credibility intervals of the samples."""
         lb = (100-percent)/2
         up = 100-lb
+
+        def percentile(samples, *args, **kwargs):
+            # numpy interpolates between order statistics in the dtype of the
+            # data: convert integer samples to float first (small integer
+            # types overflow otherwise)
+            if isinstance(samples, np.ndarray) and samples.dtype.kind in "iu":
+                samples = samples.astype(float)
+            return np.percentile(samples, *args, **kwargs)
+
         return self._compute_numpy_stats(
-            np.percentile, [lb, up], axis=-1) 
+            percentile, [lb, up], axis=-1) 
 
     def ci_width(self, percent = 95):
         """Compute width of the pointwise credibility intervals of the samples"""
